@@ -74,7 +74,7 @@ def g1_apportionment(ctx):
                 oka, why = align.aligned(ks, ps)
                 if not oka:
                     # both lists reduce to equally long per-bloc blocks over the same bloc order
-                    K, P = seqeval.evaluate_any(prog, f, keys), seqeval.evaluate_any(prog, f, props)
+                    K, P = seqeval.evaluate_any(prog, f, keys, c), seqeval.evaluate_any(prog, f, props, c)
                     canon = {"self.blocs", "list(self.bloc_voter_prop.keys())", "self.bloc_voter_prop.keys()", "self.bloc_voter_prop"}
                     if K is not None and P is not None and len(K.elems) == len(P.elems) and (K.source == P.source or (blocs_ok and K.source in canon and P.source in canon)):
                         oka, why = True, f"per-bloc blocks of {len(K.elems)} over {K.source} / {P.source}"
@@ -92,8 +92,8 @@ def g1_apportionment(ctx):
         if not (isinstance(zp, ast.Call) and astx.u(zp.func) == "zip" and len(zp.args) == 2 and len(calls[0].args) > 1):
             ctx.violated(f, f.node, f"{f.short}: voter-type shares", "no dict(zip(types, compute(..., shares, n))) apportionment found")
             continue
-        K = seqeval.evaluate_any(prog, f, zp.args[0])
-        P = seqeval.evaluate_any(prog, f, calls[0].args[1])
+        K = seqeval.evaluate_any(prog, f, zp.args[0], calls[0])
+        P = seqeval.evaluate_any(prog, f, calls[0].args[1], calls[0])
         if K is None or P is None:
             ctx.undecided(f, calls[0], f"{f.short}: voter-type shares", f"the construction of `{astx.u(zp.args[0])[:40]}` / `{astx.u(calls[0].args[1])[:40]}` is not a per-bloc block this rule can evaluate")
             continue
